@@ -485,7 +485,7 @@ func c06(run *ev.Run) int {
 	run.SetRule("cases = crafted (status, headers, body, trailers) from three generators - grammar-based hostile responses per protocol (adversarial grpc-status/message/details, JSON error bodies, end-of-stream objects, flags, lengths, encodings, every status class), mutations of recorded valid responses, random bytes - x 3 protocols x 2 codecs x 4 kinds; oracle on every operation result: returns (watchdog), no panic, error => *connect.Error with code != 0, status-derived code for non-200 without valid protocol error, case-insensitive metadata lookups; distinct by (generator class, protocol, codec, kind, outcome class)")
 	run.Assume("clients use WithReadMaxBytes(1 MiB): without a limit a lying 4 GiB length only costs time/memory (observed in the design phase), which is outside this property")
 	run.Assume("header maps handed to the client are canonical-keyed, as net/http guarantees; wire casing is exercised for in-body metadata")
-	n := run.Pick(1200, 12000) // per (protocol, codec, kind)
+	n := run.Pick(1200, 60000) // per (protocol, codec, kind)
 	corp := buildCorpus(corpusSpec{protos: svc.Protocols, codecs: svc.Codecs, kinds: svc.Kinds, gzips: []bool{false, true}, counts: []int{1, 2}, scenarios: []string{"ok", "err"}})
 	byCfg := map[string][]*recorded{}
 	for _, c := range corp {
